@@ -3,8 +3,11 @@
 (caught_by), revert, and report which are (still) caught.  Never run anything else that builds from /repo meanwhile."""
 import glob, json, os, re, subprocess, sys, time
 out = []
+only = set(sys.argv[1:])
 for d in sorted(glob.glob('/verif/seeded/*/')):
     name = os.path.basename(d.rstrip('/'))
+    if only and name not in only:
+        continue
     meta = json.load(open(d + 'meta.json'))
     m = re.search(r'scripts/check (C\d\d) (quick|thorough)', meta.get('caught_by') or '')
     if not m or not os.path.isfile(d + 'patch.diff'):
